@@ -280,6 +280,10 @@ func init() {
 					}
 				}
 			}
+			// many bind statements in one run: each one after the first warns, however many there are
+			for _, nb := range []int{4, 5, 9, 10, 11, 12, 13, 14, 20, 33, 65, 100, 129, 257, 1000} {
+				c.Do(subC04Warn, &progCase{Src: c04WarnPre + strings.Repeat("bind a:first -> struct\nbind b -> struct\n", nb/2) + strings.Repeat("bind a:last -> slice\n", nb%2)})
+			}
 			n := len(c04KeptProgs)
 			for a := 0; a < n; a++ {
 				for b := 0; b < n; b++ {
@@ -296,6 +300,21 @@ func init() {
 				if strings.HasPrefix(s.Name, "constpool-bind") {
 					do(s.Src)
 				}
+			}
+			// a bind statement directly behind an instruction whose slot operand needs two bytes: every slot 236..520 read,
+			// assigned and copied right before the bind (whatever walks the code must step over multi-byte operands)
+			var vars strings.Builder
+			for i := 0; i < 521; i++ {
+				fmt.Fprintf(&vars, "var v%d=%d\n", i, i)
+			}
+			pre := vars.String() + "def t { x = 1 }\n"
+			for sl := 236; sl <= 520; sl++ {
+				if c.Quick() && sl > 300 && sl%8 != 0 && sl%256 > 2 {
+					continue
+				}
+				do(pre + fmt.Sprintf("print v%d\nbind t -> struct\n", sl))
+				do(pre + fmt.Sprintf("eval v%d = 7\nbind t -> struct\n", sl))
+				do(pre + fmt.Sprintf("var w = v%d\nbind t -> struct\nbind t -> slice\n", sl))
 			}
 		},
 		quickLen: 5, thorLen: 6, maxNest: 1, budgetQ: 100, budgetT: 1500,
@@ -372,6 +391,30 @@ var subC04Warn = &fw.Sub{Name: "c04.warn", New: func() fw.Case { return &progCas
 				if f := differs("Dump + LoadProg + Execute", sum(bl, bi, xerr), log2.String(), true); f != nil {
 					return f
 				}
+			}
+		}
+		// every bind that runs after the first one warns: a program that ends without an error has one warning less than binds
+		if base.Err == nil {
+			if nb, nw := strings.Count("\n"+c.Src, "\nbind "), strings.Count(base.Log, "WARNING"); nb > 0 && nw != nb-1 {
+				return fw.Failf(fmt.Sprintf("%d bind statements ran: %d warnings on the log writer", nb, nb-1), "%d warnings: %s", nw, fw.Trunc(base.Log, 300))
+			}
+		}
+		// loaded (exported Load) into a Prog that held and ran another program with other bind statements
+		for _, usedSrc := range []string{"def b { y = 1 }\nbind b -> struct\n", "def q { }\ndef a { }\nprint 1\n", c04WarnPre + "bind zz -> slice\n"} {
+			var uout, ulog bytes.Buffer
+			used, uerr := bcl.Parse([]byte(usedSrc), "used", bcl.OptOutput(&uout), bcl.OptLogger(&ulog))
+			var d2 bytes.Buffer
+			if uerr != nil || p.Dump(&d2) != nil {
+				continue
+			}
+			bcl.Execute(used)
+			if lerr := used.Load(&d2); lerr != nil {
+				return fw.Failf("Load into a used Prog", "%v", lerr)
+			}
+			ulog.Reset()
+			bl, bi, xerr := bcl.Execute(used)
+			if f := differs("Load into a Prog that held and ran another program with other bind statements + Execute", sum(bl, bi, xerr), ulog.String(), true); f != nil {
+				return f
 			}
 		}
 		// trace / statistics with a writer of their own
